@@ -21,6 +21,7 @@ from __future__ import annotations
 
 import copy
 import json
+import re
 import shutil
 import tempfile
 
@@ -67,14 +68,16 @@ RULE = (
     "history shape (linear/branched/merged/depends_on, 1..N revisions) x per-revision bodies (create/drop table, add/drop column, "
     "create/drop index, bulk_insert with awkward literals and identifiers, columns with string/number/expression server defaults (nullable or not; "
     "rows give a value, an explicit None or omit the key; also add_column(server_default=...) followed by bulk_insert), multiinsert on/off, "
-    "execute of plain statements) x command x start heads x target; "
+    "execute of plain statements as plain strings and as sa.text() constructs, their string literals with text()-special content "
+    "(\\:name escapes, ::, a:b, %, %%, %s, ?, and rarely unescaped :name / %(x)s) x command x start heads x target; "
     "a case is non-trivial when both runs succeed and the script has >= 1 statement besides version bookkeeping; distinct by script text"
 )
 ASSUMPTIONS = [
     "env.py has the documented shape (shipped generic template): offline configure(url=..., literal_binds=True); with context.begin_transaction(): context.run_migrations()",
     "for a range starting at base the target database has no alembic_version table (what an offline downgrade to base leaves); for any other start its rows equal the assumed start",
     "string values do not contain U+0000 (SQLite cannot take it in SQL text; the sqlite3 module rejects the statement)",
-    "op.execute() texts are single plain statements: lexically closed, no bind-parameter syntax (:name), no comments",
+    "op.execute() texts are single plain statements: lexically closed, no comments; a literal colon in front of a word is escaped as "
+    "\\:name as sqlalchemy.text() documents (unescaped bind-looking tokens: known finding C12-BINDTEXT)",
     "the rows of one bulk_insert(multiinsert=True) have the same key set (SQLAlchemy's executemany contract); see known finding C12-HETERO",
 ]
 
@@ -201,6 +204,25 @@ def hetero_ops(case):
     return out
 
 
+BIND_RE = re.compile(r"(?<![:\w\\]):(\w+)(?!:)")  # sqlalchemy.text()'s bind-parameter pattern
+
+
+def has_bindtoken(case):
+    return any(o["op"] == "execute" and (BIND_RE.search(o["text"]) or "%(" in o["text"])
+               for b in case["bodies"].values() for side in ("up", "down") for o in b[side])
+
+
+def neutralise_bindtokens(case):
+    """the same case with every unescaped bind-looking token of its execute texts escaped the documented way"""
+    c2 = copy.deepcopy(case)
+    for b in c2["bodies"].values():
+        for side in ("up", "down"):
+            for o in b[side]:
+                if o["op"] == "execute":
+                    o["text"] = BIND_RE.sub(lambda m: "\\:" + m.group(1), o["text"]).replace("%(", "%_(")
+    return c2
+
+
 def has_tab(case):
     return "\\t" in json.dumps(case["bodies"])
 
@@ -268,6 +290,10 @@ def one_case(ctx, case, mode, pending):
             c2["bodies"] = I.tabs4(c2["bodies"])
             if judge(execute_case(c2, mode))[0] == "ok":
                 tags = tags + ["tab-only"]
+        if has_bindtoken(case):
+            # narrow test for C12-BINDTEXT: the same case with the bind-looking tokens escaped (\:name)
+            if judge(execute_case(neutralise_bindtokens(case), mode))[0] == "ok":
+                tags = tags + ["bindtext-only"]
         het = hetero_ops(case)
         if het:
             # narrow test for C12-HETERO: the same case with those bulk_inserts executed row by row
@@ -378,7 +404,9 @@ def run(ctx, n_cases=None, rng_name="main"):
         lang_only = rng.random() < 0.35
         tabs = rng.random() < 0.04
         hetero = rng.random() < 0.04
-        case = G.gen_case(rng, 9 if ctx.thorough else 6, real=(mode == "real"), lang_only=lang_only, tabs=tabs, hetero=hetero)
+        bindtext = rng.random() < 0.04
+        case = G.gen_case(rng, 9 if ctx.thorough else 6, real=(mode == "real"), lang_only=lang_only, tabs=tabs, hetero=hetero,
+                          bindtext=bindtext)
         case["lang_only"] = lang_only
         if mode == "fake":
             case["literal_binds"] = rng.random() < 0.7
@@ -404,6 +432,8 @@ def classify(failure):
         return "C12-TAB"
     if "hetero-multiinsert-only" in tags:
         return "C12-HETERO"
+    if "bindtext-only" in tags and has_bindtoken(case):
+        return "C12-BINDTEXT"
     return None
 
 
